@@ -67,7 +67,11 @@ def env(shim=True):
 
 def exc_for(kind, ld):
     return {'value': ValueError, 'user': UserExc, 'other': OtherUserExc,
-            'filter': ld.core.FilterException, 'base': BaseExc}[kind]
+            'filter': ld.core.FilterException, 'base': BaseExc,
+            # user code that lets a StopIteration escape (next() on an
+            # exhausted iterator): inside the pipeline's generators Python
+            # turns it into a RuntimeError whose cause is that StopIteration
+            'stop': StopIteration}[kind]
 
 
 def catch_arg(name, ld):
@@ -509,6 +513,15 @@ def judge_errors(sc, r, res, ld):
         res.violation('wrong-prefix-before-error', case,
                       {'delivered': got, 'want_prefix': want}, sig=sig)
         return False
+    if kind == 'stop':
+        inner = exc if isinstance(exc, StopIteration) else \
+            (exc.__cause__ or exc.__context__ if isinstance(exc, RuntimeError) else None)
+        if not (isinstance(inner, StopIteration) and any(inner is o for o in r['raised_objs'])):
+            res.violation('other-exception-surfaced', case,
+                          {'got': repr(exc), 'want': 'the StopIteration or a RuntimeError '
+                           'caused by it'}, sig=sig)
+            return False
+        return True
     if not isinstance(exc, exc_for(kind, ld)) or exc.args != ((where, pos),):
         res.violation('other-exception-surfaced', case,
                       {'got': repr(exc), 'want': (kind, where, pos)}, sig=sig)
